@@ -22,6 +22,8 @@ pub struct Unprotected {
     pub tst: Option<(String, Vec<Vec<u8>>)>,
     /// raw replacement for the whole `sigTst*` value (header-level garbage)
     pub tst_raw: Option<(String, Value)>,
+    /// a further `sigTst*` entry placed after the ones above (header order matters)
+    pub tst_second: Option<(String, Value)>,
     /// OCSP responses placed in `rVals.ocspVals`
     pub ocsp: Option<Vec<Vec<u8>>>,
 }
@@ -70,7 +72,7 @@ pub fn sign_detached(
     (s1, msg)
 }
 
-fn tst_container(tokens: &[Vec<u8>]) -> Value {
+pub fn tst_container(tokens: &[Vec<u8>]) -> Value {
     Value::Map(vec![(
         Value::Text("tstTokens".to_string()),
         Value::Array(
@@ -88,6 +90,9 @@ pub fn finish(mut s1: CoseSign1, u: &Unprotected, box_size: usize) -> Option<Vec
         s1.unprotected.rest.push((Label::Text(label.clone()), tst_container(toks)));
     }
     if let Some((label, v)) = &u.tst_raw {
+        s1.unprotected.rest.push((Label::Text(label.clone()), v.clone()));
+    }
+    if let Some((label, v)) = &u.tst_second {
         s1.unprotected.rest.push((Label::Text(label.clone()), v.clone()));
     }
     if let Some(o) = &u.ocsp {
